@@ -1,6 +1,10 @@
 from .base import Plugin
 from ..operation import Operation
-from ..utils import versioned_column_properties, is_internal_column
+from ..utils import (
+    is_internal_column,
+    option,
+    versioned_column_properties
+)
 
 
 class NullDeletePlugin(Plugin):
@@ -15,7 +19,10 @@ class NullDeletePlugin(Plugin):
             SQLAlchemy ColumnProperty object
         """
         return (
-            version_obj.operation_type == Operation.DELETE and
+            getattr(
+                version_obj,
+                option(version_obj, 'operation_type_column_name')
+            ) == Operation.DELETE and
             not prop.columns[0].primary_key and
             not is_internal_column(version_obj, prop.key)
         )
